@@ -445,9 +445,24 @@ def handle(ctx, case, r, bins, dexe, wd, cap_ctx):
     return True
 
 
+def build_tools():
+    """repo.build with retries: the shared build cache is pruned by concurrent checks of other trees, which can
+    delete a build directory while ninja is still writing into it."""
+    for attempt in range(3):
+        ok, bdir, lg = repo.build("tools", targets=["lmplz", "interpolate"])
+        if ok and os.path.exists(os.path.join(bdir, "bin", "interpolate")) and os.path.exists(os.path.join(bdir, "bin", "lmplz")):
+            return ok, bdir, lg
+        if ok:
+            # stamp present but binaries gone (pruned): force a rebuild
+            shutil.rmtree(bdir, ignore_errors=True)
+            ok, lg = False, "build directory was pruned concurrently"
+        log("  build attempt %d failed, retrying: %s" % (attempt + 1, lg[-200:]))
+    return ok, bdir, lg
+
+
 def run(ctx):
     problems, consts = flow.proof_phase(ctx, "C13", required=REQUIRED, drivers=["drv_C13"])
-    ok, bdir, lg = repo.build("tools", targets=["lmplz", "interpolate"])
+    ok, bdir, lg = build_tools()
     if not ok:
         problems.append(lg)
         flow.report_obligation_failures(ctx, problems, False)
@@ -497,7 +512,7 @@ def replay(ctx, path):
     if "case" not in j:
         print(json.dumps(j, indent=1)[:3000])
         return 1
-    ok, bdir, lg = repo.build("tools", targets=["lmplz", "interpolate"])
+    ok, bdir, lg = build_tools()
     lean.lake_build(["drv_C13"])
     bins = (os.path.join(bdir, "bin", "lmplz"), os.path.join(bdir, "bin", "interpolate"))
     wd = fresh_scratch("c13_replay_%d" % os.getpid())
